@@ -5,7 +5,8 @@ different `core.build` routes and prior histories; the outcome is observed throu
 (`ids`, `get_value_by_ids`, `metadata(id, axis)`), the branch taken (fast / general / folded list) is
 observed by wrapping `Table.merge` and `Table._fast_merge`; Lean evaluates `holds` on the real
 outcome and compares it (by ID, order not compared) and the branch trace with the model.
-All values are small integers or dyadic fractions, so every sum is exact in binary64."""
+Every sum under test is exact in binary64: one value regime per case (small integers / dyadic fractions; odd
+integers above 2**24; k/2**30; denormals; arbitrary doubles only where each cell has a single contributor)."""
 import copy
 import itertools
 
@@ -15,9 +16,17 @@ MODES = ["union", "intersection"]
 # named family of metadata functions; each has a Lean twin (BiomModel/C09.lean `namedF`).
 # every member maps (None, None) to None or {} ("no metadata, no metadata" -> no metadata)
 FNAMES = ["prefer_self", "prefer_other", "union_self", "union_always", "both_only", "drop", "tag"]
+# members with f(None, None) != "no metadata": in the property's domain wherever every step takes the general
+# path (the fast path builds a metadata-free table: sanctioned by the property under the Neutral hypothesis);
+# a case using one of them is judged only if the MODEL's trace contains no fast step
+NONNEUTRAL = ["tag_always", "count_described"]
+REGIMES = ["small", "small", "small", "bigint", "fine", "denormal", "nondyadic"]
 PATTERNS = ["disjoint", "nested_in", "nested_out", "partial", "identical", "permuted", "tricky"]
 HIST = ["none", "copy", "transpose2", "sort_samp_rev", "sort_obs_rev", "drop_first_samp", "drop_last_obs",
-        "self_merge", "self_merge_inter", "premerge", "del_md", "sort_natural"]
+        "self_merge", "self_merge_inter", "premerge", "del_md", "sort_natural", "derived", "derived", "derived"]
+# a table derived from a parent, after which ONE of the two is changed in place and the OTHER is the operand
+DERIVE_HOW = ["filter_all", "filter_drop", "sort_same", "sort_rev", "transpose2", "copy", "ctor_shared", "merge_self_inter"]
+DERIVE_CHANGE = ["rename_one", "swap_two", "rotate", "filter_inplace", "del_md", "scale2", "add_md", "mutate_md_dict"]
 VALUE_CLASSES = ("count", "smallcount", "dyadic", "neg")
 
 
@@ -42,7 +51,13 @@ def py_f(name):
     if name == "prefer_self":
         from biom.util import prefer_self
         return prefer_self
+    def tag_always(x, y):
+        return {"src": "both" if (x is not None and y is not None) else
+                ("self" if x is not None else ("other" if y is not None else "neither"))}
+
     return {
+        "tag_always": tag_always,
+        "count_described": lambda x, y: {"described_by": (x is not None) + (y is not None)},
         "prefer_other": lambda x, y: y if y is not None else x,
         "union_self": union_self,
         "union_always": union_always,
@@ -89,9 +104,55 @@ def apply_history(t, hist):
         elif op == "del_md":
             t = t.copy()
             t.del_metadata(axis="whole")
+        elif op == "derived":
+            t = derive_and_change(t, *h[1:])
         else:
             raise ValueError(op)
     return t
+
+
+def derive_and_change(parent, how, axis, change, change_axis, change_parent):
+    """derive a table from `parent` (axis = the axis the derivation works on), change one of the two in place
+    on `change_axis`, return the OTHER one: lookups / ID arrays / metadata objects shared between the two must
+    not let the change leak"""
+    from biom import Table
+    ids = list(parent.ids(axis=axis))
+    if parent.shape[0] == 0 or parent.shape[1] == 0:
+        return parent
+    if how == "filter_all":
+        child = parent.filter(lambda v, i, m: True, axis=axis, inplace=False)
+    elif how == "filter_drop":
+        child = parent.filter(ids[-1:], axis=axis, invert=True, inplace=False) if len(ids) > 1 else parent.copy()
+    elif how == "sort_same":
+        child = parent.sort_order(ids, axis=axis)
+    elif how == "sort_rev":
+        child = parent.sort_order(ids[::-1], axis=axis)
+    elif how == "transpose2":
+        child = parent.transpose().transpose()
+    elif how == "copy":
+        child = parent.copy()
+    elif how == "ctor_shared":
+        child = Table(parent.matrix_data, parent.ids(axis="observation"), parent.ids(),
+                      parent.metadata(axis="observation"), parent.metadata())
+    elif how == "merge_self_inter":
+        child = parent.merge(parent, sample="intersection", observation="intersection")
+    else:
+        raise ValueError(how)
+    changed, kept = (parent, child) if change_parent else (child, parent)
+    cids = [str(i) for i in changed.ids(axis=change_axis)]
+    longest = max(len(i) for i in cids)
+    if change == "rename_one":
+        changed.update_ids({cids[0]: cids[0] + "_" * (longest + 2)}, axis=change_axis, strict=False, inplace=True)
+    elif change == "swap_two":
+        if len(cids) > 1:
+            changed.update_ids({cids[0]: cids[-1], cids[-1]: cids[0]}, axis=change_axis, strict=False, inplace=True)
+    elif change == "rotate":
+        if len(cids) > 1:
+            changed.update_ids({c: cids[(k + 1) % len(cids)] for k, c in enumerate(cids)}, axis=change_axis,
+                               strict=True, inplace=True)
+    else:
+        apply_inplace(changed, {"del_md": "del_md_all"}.get(change, change), change_axis)
+    return kept
 
 
 def build_operand(rec):
@@ -143,6 +204,13 @@ def by_id(o):
 
 def coherent(t):
     """the table answers by-ID queries through its own lookups exactly as its matrix/ID arrays say"""
+    try:
+        return coherent_(t)
+    except Exception:       # a lookup that refuses one of the table's own IDs is not coherent either
+        return False
+
+
+def coherent_(t):
     pos = core.table_obs(t)
     pub = public_obs(t)
     if by_id({k: pos[k] for k in ("obs", "samp", "rows", "omd", "smd")}) != by_id(pub):
@@ -270,19 +338,33 @@ def merge_args(recipe, others):
     return args, kw, names
 
 
-def merge_once(ctx, recipe, tables, tags, rrng, label):
+def merge_once(ctx, recipe, tables, tags, rrng, label, shared=None):
     """observe the operands, run the real merge, observe the outcome, ask Lean; returns (r, outcome, before)"""
     import warnings
     import biom.err
     a, others = tables[0], tables[1:]
     form = recipe["form"]
     args, kw, names = merge_args(recipe, others)
-    before = [core.table_obs(t) for t in tables]
+    if shared is not None:
+        # the same (mutable) list object is handed to every call of this case
+        if "arg" in shared and isinstance(args[0], list):
+            args[0] = shared["arg"]
+        shared["arg"] = args[0]
+    try:
+        before = [core.table_obs(t) for t in tables]
+    except Exception as e:
+        # the histories only double / add finite values far below the overflow threshold and keep IDs readable
+        ctx.case({"recipe": recipe, "stage": label}, nontrivial=False)
+        ctx.fail({"recipe": recipe, "stage": label}, "history:operand-unreadable-" + core.err_name(e),
+                 tuple(tags) + ("history",))
+        return None, None, None
     profile = recipe.get("profile")
     if profile and any(len(b["obs"]) == 0 or len(b["samp"]) == 0 for b in before):
         profile = None
+    strict_warnings = bool(recipe.get("warn_error")) and not (profile and "warn" in profile.values())
     with Tracer() as tr, warnings.catch_warnings():
-        warnings.simplefilter("ignore")
+        # a share of the calls runs with warnings turned into exceptions: a merge has nothing to warn about
+        warnings.simplefilter("error" if strict_warnings else "ignore")
         try:
             if profile:
                 with biom.err.errstate(**profile):
@@ -304,6 +386,12 @@ def merge_once(ctx, recipe, tables, tags, rrng, label):
              nontrivial=len(before) >= 2 and sum(nz) >= 2 and cells >= 2)
     resp = ctx.driver.ask(req)
     case = {"recipe": recipe, "request": req, "stage": label}
+    if isinstance(args[0], list) and not (len(args[0]) == len(others) and all(x is y for x, y in zip(args[0], others))):
+        ctx.fail(case, "argument:list-of-others-changed-by-merge", tags)
+    # a function with f(None, None) != "no metadata" is in the domain only where no step takes the fast path
+    judged = not ((names["fs"] in NONNEUTRAL or names["fo"] in NONNEUTRAL) and "fast" in resp["model_trace"])
+    if names["fs"] in NONNEUTRAL or names["fo"] in NONNEUTRAL:
+        ctx.count("non-neutral-f=%s" % ("judged (general path)" if judged else "not judged (model: fast step)"))
     branch = "fast" if steps == ["fast"] else ("general" if form == "single" else "folded:" + "".join(x[0] for x in steps))
     ctx.count("branch=" + (branch if len(branch) < 14 else branch[:14] + "+"))
     ctx.count("form=%s k=%d" % (form, len(others)))
@@ -317,9 +405,13 @@ def merge_once(ctx, recipe, tables, tags, rrng, label):
     if "ok" in outcome:
         ctx.count("result-md=%s" % ("none" if (outcome["ok"]["omd"] is None and outcome["ok"]["smd"] is None) else "some"))
         ctx.count("order-as-model=%s" % resp.get("same_order"))
-    if not resp["model_holds"]:
+    if not judged:
+        pass
+    elif not resp["model_holds"]:
         ctx.diverge(case, "theorem model_holds contradicted by the driver", tags, detail={"model": resp["model"]})
-    if not resp["holds"]:
+    if not judged:
+        pass
+    elif not resp["holds"]:
         ctx.fail(case, resp["clause"], tags, detail={"model": resp["model"], "model_trace": resp["model_trace"]})
     elif not resp["agree"]:
         ctx.diverge(case, "outcome (by ID) or branch trace differs from the model", tags,
@@ -328,7 +420,10 @@ def merge_once(ctx, recipe, tables, tags, rrng, label):
     # an empty list of others is outside the property (the fold returns the receiver itself)
     same_obj = r is not None and len(others) == 0 and any(r is t for t in tables)
     for k, t in enumerate(tables):
-        now = core.table_obs(t)
+        try:
+            now = core.table_obs(t)
+        except Exception:   # e.g. a value that is no longer finite
+            now = None
         if now != before[k]:
             ctx.fail(case, "operands:changed-by-merge" if r is not None else "operands:changed-by-refused-merge",
                      tuple(tags) + ("operand=%d" % k,))
@@ -362,9 +457,10 @@ def run_case(ctx, recipe, tags=()):
             if prng.random() < 0.5 and t.shape[0] > 0 and t.shape[1] > 0:
                 t.data(t.ids()[prng.randrange(t.shape[1])], axis="sample")
     rrng = random.Random(recipe["read"]) if recipe.get("read") is not None else None
-    r, outcome, before = merge_once(ctx, recipe, tables, tags, rrng, "first")
+    shared = {}
+    r, outcome, before = merge_once(ctx, recipe, tables, tags, rrng, "first", shared)
     then = recipe.get("then")
-    if not then:
+    if not then or before is None:
         return r, outcome, before
     if then["kind"] == "again":
         # identity-keyed state: the same call again after an in-place change of one operand is judged
@@ -377,10 +473,15 @@ def run_case(ctx, recipe, tags=()):
             applied = False
         if applied:
             ctx.count("again=" + then["op"])
-            merge_once(ctx, recipe, tables, tuple(tags) + ("again", "op=" + then["op"]), rrng, "again")
+            merge_once(ctx, recipe, tables, tuple(tags) + ("again", "op=" + then["op"]), rrng, "again", shared)
     elif then["kind"] == "alias" and r is not None:
-        r_before = public_obs(r)
-        ops_before = [core.table_obs(t) for t in tables]
+        try:
+            r_before = public_obs(r)
+            ops_before = [core.table_obs(t) for t in tables]
+        except Exception as e:
+            ctx.fail({"recipe": recipe, "stage": "alias"}, "alias:live-table-unreadable-" + core.err_name(e),
+                     tuple(tags) + ("alias",))
+            return r, outcome, before
         live = [("result", r)] + [(k, t) for k, t in enumerate(tables)]
         target = then["target"] if then["target"] == "result" else then["target"] % len(tables)
         tobj = r if target == "result" else tables[target]
@@ -398,10 +499,13 @@ def run_case(ctx, recipe, tags=()):
                 if t is tobj:
                     ctx.fail(case, "alias:result-is-an-operand", tuple(tags) + ("alias", "same=%s" % name))
                     continue
-                if name == "result":
-                    ok = by_id(public_obs(t)) == by_id(r_before)
-                else:
-                    ok = core.table_obs(t) == ops_before[name]
+                try:
+                    if name == "result":
+                        ok = by_id(public_obs(t)) == by_id(r_before)
+                    else:
+                        ok = core.table_obs(t) == ops_before[name]
+                except Exception:
+                    ok = False
                 if not ok:
                     ctx.fail(case, "alias:other-table-changed", tuple(tags) + ("alias", "op=" + then["op"],
                                                                                "changed=%s" % name, "target=%s" % target))
@@ -414,6 +518,12 @@ def run_case(ctx, recipe, tags=()):
 def id_sets(rng, k, pattern, prefix, max_n):
     """k ID lists with a chosen overlap pattern between the receiver and the others"""
     pool = core.gen_ids(rng, 2 * max_n + 2, prefix, "mixed")
+    if rng.random() < 0.3:
+        # NFC / NFD spellings of one text are DISTINCT IDs; texts with '%', quotes, U+2028/2029/0085, form feed, ...
+        special = [prefix + x for x in core.twin_ids(rng, 2) + rng.sample(core.NASTY_TEXTS, 3)]
+        for x in special:
+            if x not in pool:
+                pool.insert(rng.randrange(min(len(pool), 2 * max_n) + 1), x)
     n = rng.randint(1, max_n)
     base = pool[:n]
     rest = pool[n:]
@@ -474,24 +584,62 @@ def gen_md(rng, ids, who, kind):
             e["taxonomy"] = ["k__%s" % rng.choice("AB"), "p__%s" % who]
         if kind == "own-key":
             e = {"only_%s" % who: i}
+        if kind == "nasty":
+            tw = core.twin_ids(rng, 1)
+            e = {"who": who, rng.choice(core.NASTY_TEXTS): rng.choice(core.NASTY_TEXTS), tw[0]: tw[1], tw[1]: i}
         md.append(e)
     if kind == "holes" and len(md) > 1:
         md[rng.randrange(len(md))] = None
     return md
 
 
-def gen_operand(rng, obs, samp, who, md_o, md_s, allow_hist=True, max_n=4):
-    rows = core.gen_grid(rng, len(obs), len(samp), rng.choice([0.3, 0.6, 0.9, 1.0]), VALUE_CLASSES)
+def gen_value(rng, regime):
+    """one value regime per case keeps every sum under test exact in binary64"""
+    if regime == "small":
+        return core.gen_value(rng, rng.choice(VALUE_CLASSES))
+    if regime == "bigint":      # odd integers above 2**24 (need more than 24 significant bits), a few small counts
+        return float(rng.randrange(2 ** 24 + 1, 2 ** 40, 2)) if rng.random() < 0.8 else float(rng.randint(1, 9))
+    if regime == "fine":        # k / 2**30 with k odd: up to 36 significant bits, 30 fractional bits
+        return rng.randrange(1, 2 ** 36, 2) / float(2 ** 30)
+    if regime == "denormal":    # multiples of the smallest positive double
+        return rng.randint(1, 1000) * 5e-324
+    if regime == "nondyadic":   # any double; used only where each cell has a single contributing operand
+        while True:
+            v = rng.choice([0.1, 1.0 / 3, 2.0 / 3, 0.1234567891, 1e-7, 123456789.123, 16777217.0, 1e200, -0.7,
+                            core.gen_value(rng, "bits"), core.gen_value(rng, "tiny")])
+            if abs(v) < 1e201:      # histories may double a value a few times
+                return v
+    raise ValueError(regime)
+
+
+def gen_grid(rng, n, m, density, regime):
+    g = [[gen_value(rng, regime) if rng.random() < density else 0.0 for _ in range(m)] for _ in range(n)]
+    if n > 1 and rng.random() < 0.2:
+        g[rng.randrange(n)] = [0.0] * m
+    if m > 1 and rng.random() < 0.2:
+        j = rng.randrange(m)
+        for r in g:
+            r[j] = 0.0
+    return g
+
+
+def gen_operand(rng, obs, samp, who, md_o, md_s, allow_hist=True, max_n=4, regime="small"):
+    rows = gen_grid(rng, len(obs), len(samp), rng.choice([0.3, 0.6, 0.9, 1.0]), regime)
     spec = {"obs": list(obs), "samp": list(samp), "rows": rows, "omd": gen_md(rng, obs, who, md_o),
             "smd": gen_md(rng, samp, who, md_s), "type": rng.choice([None, "OTU table"])}
     hist = []
     if allow_hist and rng.random() < 0.45:
         h = rng.choice(HIST)
+        if h == "premerge" and regime == "nondyadic":
+            h = "copy"      # a prior merge would give both operands the IDs Opre/Spre: two contributors per cell
+        if h == "derived":
+            h = ["derived", rng.choice(DERIVE_HOW), rng.choice(["sample", "observation"]), rng.choice(DERIVE_CHANGE),
+                 rng.choice(["sample", "observation"]), rng.random() < 0.7]
         if h == "premerge":
             o2 = rng.sample(obs, rng.randint(1, len(obs))) + ["Opre"]
             s2 = rng.sample(samp, rng.randint(1, len(samp))) + ["Spre"]
             spec2 = {"obs": o2, "samp": s2,
-                     "rows": core.gen_grid(rng, len(o2), len(s2), 0.7, VALUE_CLASSES),
+                     "rows": gen_grid(rng, len(o2), len(s2), 0.7, regime),
                      "omd": gen_md(rng, o2, "pre", rng.choice(["none", "plain"])),
                      "smd": gen_md(rng, s2, "pre", rng.choice(["none", "plain"])), "type": None}
             h = ["premerge", spec2, rng.choice(core.ROUTES), rng.choice(MODES), rng.choice(MODES)]
@@ -502,22 +650,28 @@ def gen_operand(rng, obs, samp, who, md_o, md_s, allow_hist=True, max_n=4):
 MD_KINDS = ["none", "plain", "rich", "holes", "own-key"]
 
 
-def gen_recipe(rng, k, opat, spat, ms, mo, mdcfg, fs, fo, form, max_n=4, allow_hist=True):
+def gen_recipe(rng, k, opat, spat, ms, mo, mdcfg, fs, fo, form, max_n=4, allow_hist=True, regime=None):
     """mdcfg: per operand a pair (obs kind, samp kind)"""
-    osets = id_sets(rng, k + 1, opat, "O", max_n)
-    ssets = id_sets(rng, k + 1, spat, "S", max_n)
+    if regime is None:
+        regime = rng.choice(REGIMES)
+    if regime == "nondyadic" and not (k == 1 and "disjoint" in (opat, spat)):
+        regime = "small"        # arbitrary doubles need a single contributor per cell
+    # the same names on both axes (an ID text may be an observation and a sample) for a share of the cases
+    po, ps = ("N", "N") if rng.random() < 0.15 else ("O", "S")
+    osets = id_sets(rng, k + 1, opat, po, max_n)
+    ssets = id_sets(rng, k + 1, spat, ps, max_n)
     ops = []
     for j in range(k + 1):
         mo_k, ms_k = mdcfg[j]
-        ops.append(gen_operand(rng, osets[j], ssets[j], "t%d" % j, mo_k, ms_k, allow_hist, max_n))
-    return {"ops": ops, "form": form, "ms": ms, "mo": mo, "fs": fs, "fo": fo}
+        ops.append(gen_operand(rng, osets[j], ssets[j], "t%d" % j, mo_k, ms_k, allow_hist, max_n, regime))
+    return {"ops": ops, "form": form, "ms": ms, "mo": mo, "fs": fs, "fo": fo, "regime": regime}
 
 
 def md_config(rng, which, k):
     """which: neither | self | other | both — who carries metadata (on one or both axes)"""
     def some():
         c = rng.choice([("plain", "plain"), ("rich", "none"), ("none", "plain"), ("holes", "plain"),
-                        ("own-key", "own-key"), ("plain", "holes")])
+                        ("own-key", "own-key"), ("plain", "holes"), ("nasty", "plain"), ("none", "nasty")])
         return c
     cfg = []
     for j in range(k + 1):
@@ -533,6 +687,8 @@ def policy(rng):
         return "default"
     if c < 0.45:
         return None
+    if c < 0.57:
+        return rng.choice(NONNEUTRAL)
     return rng.choice(FNAMES)
 
 
@@ -626,12 +782,16 @@ def harden(rng, recipe, then=True):
     if rng.random() < 0.2:
         recipe["profile"] = rng.choice([{"empty": "raise"}, {"empty": "warn"}, {"empty": "call"}, {"all": "raise"},
                                         {"all": "warn"}])
-    if rng.random() < 0.1:
+    if rng.random() < 0.3:
+        recipe["warn_error"] = True
+    if rng.random() < 0.1 or any(isinstance(h, list) and h[0] == "derived" for o in recipe["ops"] for h in o["hist"]):
         recipe["coherence"] = True
     c = rng.random()
     k = len(recipe["ops"])
+    # presence/absence turns values into 1: next to denormals the sum would no longer be exact
+    inplace_ops = [o for o in INPLACE_OPS if not (o == "pa" and recipe.get("regime") == "denormal")]
     if then and k >= 2 and c < 0.15:
-        recipe["then"] = {"kind": "again", "which": rng.randrange(k), "op": rng.choice(INPLACE_OPS),
+        recipe["then"] = {"kind": "again", "which": rng.randrange(k), "op": rng.choice(inplace_ops),
                           "axis": rng.choice(["sample", "observation"])}
     elif then and k >= 2 and c < 0.3:
         recipe["then"] = {"kind": "alias", "target": rng.choice(["result", "result", 0, 1, k - 1]),
@@ -639,9 +799,11 @@ def harden(rng, recipe, then=True):
     return recipe
 
 
-def wide_recipe(rng, axis):
+def wide_recipe(rng, axis, n_axis=None):
     """size thresholds: >= 64 IDs on an axis, the other operand's IDs in another order, partly new and longer"""
-    sa = core.wide_spec(rng, axis=axis, classes=VALUE_CLASSES, md=rng.random() < 0.5)
+    regime = rng.choice(["small", "bigint", "fine"])
+    sa = core.wide_spec(rng, n_axis=n_axis, axis=axis, classes=VALUE_CLASSES, md=rng.random() < 0.5)
+    sa["rows"] = gen_grid(rng, len(sa["obs"]), len(sa["samp"]), 0.6, regime)
     key = "samp" if axis == "sample" else "obs"
     okey = "obs" if axis == "sample" else "samp"
     ids = list(sa[key])
@@ -654,7 +816,7 @@ def wide_recipe(rng, axis):
     oids = oids[:rng.randint(1, len(oids))] + [oids[0] + "_longer_than_all"]
     sb = {key: bids, okey: oids, "type": None, "omd": None, "smd": None}
     n, m = len(sb["obs"]), len(sb["samp"])
-    sb["rows"] = core.gen_grid(rng, n, m, 0.6, VALUE_CLASSES)
+    sb["rows"] = gen_grid(rng, n, m, 0.6, regime)
     if rng.random() < 0.5:
         sb["omd"] = gen_md(rng, sb["obs"], "t1", "plain")
         sb["smd"] = gen_md(rng, sb["samp"], "t1", "plain")
@@ -683,8 +845,10 @@ def run(ctx):
                    "the branch taken is observed by wrapping Table.merge / Table._fast_merge from outside",
                    "operand-unchanged / aliasing / coherence clauses are evaluated by the harness (Python comparison of "
                    "canonical observations), not by Lean"]
-    ctx.assumptions = ["float addition is exact on the generated values (|v| <= 128 after doubling, at most 6 fractional "
-                       "bits, <= 8 terms)"]
+    ctx.assumptions = ["float addition is exact on the generated values: one regime per case — small integers / dyadic "
+                       "fractions (<= 6 fractional bits), odd integers in (2**24, 2**40), odd k / 2**30 (k < 2**36), "
+                       "multiples of 5e-324, each with <= 16 terms per cell; arbitrary doubles only in pairs whose IDs are "
+                       "disjoint on one axis (a single contributor per cell)"]
     for tag, recipe in fixed_corpus():
         run_case(ctx, recipe, (tag, "fixed"))
     # process-level state: unusual optional arguments early, default calls judged later (fixed corpus again at the end)
@@ -717,6 +881,11 @@ def run(ctx):
         axis = rng.choice(["sample", "observation"])
         run_case(ctx, harden(rng, wide_recipe(rng, axis), then=False), ("wide", "axis=" + axis))
         ctx.count("wide=" + axis)
+    # one table beyond 512 IDs on an axis
+    axis = rng.choice(["sample", "observation"])
+    run_case(ctx, harden(rng, wide_recipe(rng, axis, n_axis=rng.choice([513, 520, 600])), then=False),
+             ("wide", "over-512", "axis=" + axis))
+    ctx.count("wide>512=" + axis)
     # random, including k-tuples
     n = 1800 if ctx.quick() else max(4000, 64000 // nw)
     for _ in range(n):
@@ -724,10 +893,21 @@ def run(ctx):
         form = "single" if (k == 1 and rng.random() < 0.5) else rng.choice(["list", "tuple"])
         which = rng.choice(["neither", "neither", "self", "other", "both", "mixed"])
         ms, mo = rng.choice([("union", "union")] * 3 + list(itertools.product(MODES, MODES)))
-        recipe = gen_recipe(rng, k, rng.choice(pats), rng.choice(pats), ms, mo, md_config(rng, which, k),
-                            policy(rng), policy(rng), form, max_n=4 if ctx.quick() else rng.choice([3, 4, 6]))
+        regime = rng.choice(REGIMES)
+        opat, spat = rng.choice(pats), rng.choice(pats)
+        if regime == "nondyadic":
+            # arbitrary doubles: a pair whose IDs are disjoint on one axis, so that no cell has two contributors
+            k, form = 1, rng.choice(["single", "list"])
+            if rng.random() < 0.5:
+                opat = "disjoint"
+            else:
+                spat = "disjoint"
+        recipe = gen_recipe(rng, k, opat, spat, ms, mo, md_config(rng, which, k),
+                            policy(rng), policy(rng), form, max_n=4 if ctx.quick() else rng.choice([3, 4, 6]),
+                            regime=regime)
         run_case(ctx, harden(rng, recipe), ("random", "k=%d" % k))
         ctx.count("md=" + which)
+        ctx.count("regime=" + recipe["regime"])
     # the default calls of the fixed corpus once more, after everything else ran in this process
     for tag, recipe in fixed_corpus():
         run_case(ctx, dict(recipe, poke=rng.randrange(1 << 30), coherence=True), (tag, "fixed", "late"))
